@@ -71,4 +71,32 @@ CLAIMS = {
         "note": TRUST + " 'projection'/'opaque' are read as AliasTy occurrences (TyKind::AssociatedType/OpaqueType set no flag today; recorded as an interpretation).",
         "technique": "field-coverage analysis over ADT definitions + exhaustive match-table extraction vs spec table",
     },
+    "C15": {
+        "category": "proof",
+        "text": "For the normal exits the first sentence is decided completely: in InferenceTable::relate, snapshot() dominates the unifier, "
+                "the Err edge of the unifier's result reaches the return only through rollback_to of that very snapshot and the Ok edge "
+                "only through commit (MIR edge reachability); the Unifier is constructed only in Unifier::new, which is called only from "
+                "that region (whole-workspace call graph); snapshot/rollback cover every field of InferenceTable; a snapshot is neither "
+                "Clone nor Copy and is consumed by value. Second sentence: the 280 unordered kind pairs of the three relate tables are "
+                "symmetric under argument swap with directional helpers mirrored by variance.invert(). Obligations = rule instances.",
+        "note": "Trusted: rustc MIR/THIR, ena's snapshot/rollback_to/commit. The unwinding exit is outside the statement. " + TRUST,
+        "technique": "MIR must-pass-through on result edges + who-may-call + field coverage + impl-table typestate + pattern-matrix symmetry",
+    },
+    "C14": {
+        "text": "The set of variable-binding sites equals an audited table; the two sites that bind structured values are dominated by a "
+                "successful OccursCheck fold (created with the bound variable and its own universe) whose result is the value bound; "
+                "promotions are guarded by `universe_index < ui`; OccursCheck rejects invisible type/const placeholders and cycles; "
+                "unify_values keeps min universe; relate_var_ty's kind gate, the rigid 19x19 table and relate_binders' instantiation order "
+                "match the spec. MGU-ness itself is not decided.",
+        "note": PARTIAL + TRUST,
+        "technique": "who-may-call table + MIR dominance over call and result edges + exhaustive match tables",
+    },
+    "C29": {
+        "text": "Variance::xform/invert equal the composition tables; relate_ty_ty relates every component of all 19 rigid constructors at the "
+                "variance in a spec table (refs, raw pointers, tuples, fn pointers, dyn, declared ADT/fn-def variances via zip_substs); "
+                "push_lifetime_outlives_goals' direction table composed with Ref's lifetime position yields 'a: 'b; generalize_ty agrees "
+                "with relate_ty_ty; both engines refuse subtype goals between two general variables.",
+        "note": PARTIAL + TRUST + " Declared *lifetime* parameter positions are not armed (convention ambiguous, DESIGN.md C29).",
+        "technique": "symbolic rendering of variance expressions per match arm (THIR) compared with a spec table",
+    },
 }
